@@ -81,3 +81,18 @@ func (b *byRank[K]) Swap(i, j int) {
 	b.keys[i], b.keys[j] = b.keys[j], b.keys[i]
 	b.ranks[i], b.ranks[j] = b.ranks[j], b.ranks[i]
 }
+
+// Package-level channels of the code under test (a process-wide semaphore or free list) are
+// created when the package is initialised, outside any bubble: blocking on one is invisible to
+// the bubble's quiescence detection (the run would hang in real time) and its content would
+// leak from one run into the next. The overlay registers, per such variable, a function that
+// creates it again; the harness calls them inside the bubble at the start of every run.
+var globalResets []func()
+
+func RegisterReset(fn func()) { globalResets = append(globalResets, fn) }
+
+func ResetGlobals() {
+	for _, fn := range globalResets {
+		fn()
+	}
+}
